@@ -157,12 +157,32 @@ def mon_c04(case, obs, prefix):
 
 def mon_c01(case, obs, prefix):
     bad = []
+    under = {}      # ghost: UP SEID -> node id the session is established under (tracked from the requests)
     for i, ev, o, prev, prev_dp, dup in walk(case, obs, prefix):
         if o.get("fault"):
             bad.append((i, "fault: " + o["fault"]))
             break
         d, dp = o["dump"], o["dp"] or []
         kinds = ["pdr", "far", "qer", "urr", "bar"]
+        m = ev.get("msg") or {}
+        if ev["t"] == "recv" and not dup:
+            if m["k"] == "est":
+                for x in (o["sends"] or []):
+                    if x["type"] == "estrsp" and x["cause"] == 1:
+                        under[x["fseid"]] = (m.get("nid") or {}).get("v")
+            elif m["k"] == "mod" and (m.get("nid") or {}).get("v") is not None and live(prev, m["seid"]) is not None:
+                obj = live(prev, m["seid"])["node"]
+                for idx, s_ in enumerate(prev.get("slots") or []):
+                    if s_ is not None and s_["node"] == obj:
+                        under[idx + 1] = m["nid"]["v"]
+            elif m["k"] == "asr" and (m.get("nid") or {}).get("v") is not None:
+                # re-association ends every session established under that node id: none may stay, none of its rules may stay
+                nid = m["nid"]["v"]
+                for lid in sorted(l for l, n in under.items() if n == nid and live(prev, l) is not None):
+                    left = [r for r in dp if r[0] == lid]
+                    if live(d, lid) is not None or left:
+                        bad.append((i, "re-association of node %d: session %d established under it is still there (rules left in the data plane: %s)"
+                                    % (nid, lid, left)))
         for seid, k, rid in dp:
             s = live(d, seid)
             if s is None:
@@ -190,6 +210,9 @@ def mon_c01(case, obs, prefix):
             if ended and now is None and any(r[0] == idx + 1 for r in dp):
                 bad.append((i, "session %d ended but rules of it remain in the data plane: %s"
                             % (idx + 1, [r for r in dp if r[0] == idx + 1])))
+        for lid in list(under):
+            if live(d, lid) is None:
+                del under[lid]
     return bad
 
 
@@ -309,6 +332,9 @@ def mon_c05(case, obs, prefix):
             if m["k"] == "est":
                 new = [s["fseid"] for s in (o["sends"] or []) if s["type"] == "estrsp" and s["cause"] == 1]
                 addressed = set(new)
+                for f in new:
+                    if live(prev, f) is not None:
+                        bad.append((i, "establishment was given user-plane SEID %d, which belongs to a live session: that session is overwritten" % f))
                 nid = (m.get("nid") or {}).get("v")
                 for f in new:
                     under[f] = nid
@@ -322,7 +348,8 @@ def mon_c05(case, obs, prefix):
                             under[idx + 1] = m["nid"]["v"]
             elif m["k"] == "asr":
                 nid = (m.get("nid") or {}).get("v")
-                if nid is not None and peer_ip(prefix, nid) in (prev.get("rnodes") or {}):
+                if nid is not None:
+                    # judged on the ghost alone: whether the implementation still knows the node is part of what is checked
                     addressed = {lid for lid, n in under.items() if n == nid and live(prev, lid) is not None}
                     for lid in sorted(addressed):
                         if live(d, lid) is not None and _slot_json(live(d, lid)) == _slot_json(live(prev, lid)):
@@ -375,7 +402,7 @@ def peer_ip(prefix, k):
 def sig_c05(case, failures):
     """takeover-collision: the history contains a Modification carrying a Node ID that is, at that moment, the id
     of another association (which the re-keying overwrites)"""
-    if not any("established under that node id" in m or "changed although" in m for _, m in failures):
+    if not any("established under that node id" in m or "changed although" in m or "established under it is still there" in m for _, m in failures):
         return None
     assoc = {}       # node id -> owner token, simulated from the events alone
     sess_node = {}
@@ -902,7 +929,31 @@ def directed_c05(rnd):
         _rc(0, 2, {"k": "est", "nid": {"v": 0}, "fseid": {"v": 10}, "ops": {"cFAR": [1]}}),
         _rc(1, 2, {"k": "est", "nid": {"v": 1}, "fseid": {"v": 20}, "ops": {"cFAR": [1]}}),
         _rc(1, 3, {"k": "mod", "seid": 1, "nid": {"v": 1}, "ops": {}}),
-        _rc(1, 4, {"k": "asr", "nid": {"v": 1}})]}]
+        _rc(1, 4, {"k": "asr", "nid": {"v": 1}})]}] + [
+        # two nodes using the SAME control-plane SEID; the report of the session with the HIGHER user-plane SEID is answered
+        # with header SEID 0 by its own peer: exactly that session goes, its twin under the other node stays
+        {"maxretrans": 1, "txseq0": 0, "events": [
+            _rc(0, 1, {"k": "asr", "nid": {"v": 0}}), _rc(1, 1, {"k": "asr", "nid": {"v": 1}}),
+            _rc(a, 2, {"k": "est", "nid": {"v": a}, "fseid": {"v": cp}, "ops": {"cFAR": [1]}}),
+            _rc(1 - a, 2, {"k": "est", "nid": {"v": 1 - a}, "fseid": {"v": cp}, "ops": {"cFAR": [1]}}),
+            {"t": "report", "seid": 2, "items": [{"dld": {"pdr": 1, "action": 12, "pkt": "aabb"}}], "fail": [], "usage": []},
+            {"t": "recv", "peer": 1 - a, "seq": 0, "msg": {"k": "srr", "hdr": 0}, "fail": [], "usage": []},
+            _rc(a, 3, {"k": "mod", "seid": 1, "nid": {"absent": True}, "ops": {"cFAR": [2]}})]}
+        for a, cp in ((0, 77), (1, 10))] + [
+        # several released SEIDs outstanding at once, then re-issued to sessions of different nodes: each new session gets
+        # a SEID of its own and no live session is touched
+        {"maxretrans": 1, "txseq0": 0, "events": [
+            _rc(0, 1, {"k": "asr", "nid": {"v": 0}}), _rc(1, 1, {"k": "asr", "nid": {"v": 1}}),
+            _rc(0, 2, {"k": "est", "nid": {"v": 0}, "fseid": {"v": 10}, "ops": {"cFAR": [1]}}),
+            _rc(1, 2, {"k": "est", "nid": {"v": 1}, "fseid": {"v": 10}, "ops": {"cFAR": [1]}}),
+            _rc(0, 3, {"k": "est", "nid": {"v": 0}, "fseid": {"v": 11}, "ops": {"cFAR": [1]}}),
+            _rc(0, 4, {"k": "del", "seid": d1}), _rc(1, 3, {"k": "del", "seid": d2}),
+            _rc(1, 4, {"k": "est", "nid": {"v": 1}, "fseid": {"v": 20}, "ops": {"cFAR": [3]}}),
+            _rc(0, 5, {"k": "est", "nid": {"v": 0}, "fseid": {"v": 21}, "ops": {"cFAR": [4]}}),
+            _rc(1, 5, {"k": "mod", "seid": 1, "nid": {"absent": True}, "ops": {"cFAR": [5]}}),
+            _rc(0, 6, {"k": "mod", "seid": 2, "nid": {"absent": True}, "ops": {"cFAR": [6]}}),
+            _rc(0, 7, {"k": "del", "seid": 3})]}
+        for d1, d2 in ((1, 2), (3, 2))]
 
 
 def _usa(seid, urr, val):
